@@ -29,6 +29,9 @@ func init() {
 	register(&core.Rule{ID: "C10.4", Prop: "C10", MinSites: 3,
 		Desc: "benign-empty discipline: Read/Discard/WriteTo return before consulting the list only when the ring satisfied the request, or on an error of a ring known to be non-empty",
 		Run: runC10_4})
+	register(&core.Rule{ID: "C10.7", Prop: "C10", MinSites: 2,
+		Desc: "Peek bounds: elastic.Buffer.Peek validates n against Buffered() of both halves, and linkedlist.PeekWithBytes validates its bound against the list bytes plus the prefix segments it is given (not the list alone)",
+		Run: runC10_7})
 	register(&core.Rule{ID: "C10.5", Prop: "C10", MinSites: 6,
 		Desc: "elastic.RingBuffer: rbPool.Put(b.rb) is followed by b.rb = nil on the same path; Discard/Read/ReadByte/WriteTo defer done() before touching the ring",
 		Run: runC10_5})
@@ -373,5 +376,114 @@ func runC10_5(c *core.Ctx) {
 				}
 			})
 		}
+	}
+}
+
+func runC10_7(c *core.Ctx) {
+	a := elAnchors(c)
+	if a == nil {
+		return
+	}
+	// (a) elastic.Buffer.Peek: n > mb.Buffered() ↦ ErrShortBuffer
+	if f := a.funcs["Peek"]; f != nil {
+		okk := false
+		ast.Inspect(f.Decl.Body, func(n ast.Node) bool {
+			if x, y, op, ok := func() (ast.Expr, ast.Expr, token.Token, bool) {
+				if e, ok := n.(ast.Expr); ok {
+					return flow.Cmp(e)
+				}
+				return nil, nil, 0, false
+			}(); ok && op == token.GTR && flow.ObjOf(f.Info, x) == types.Object(f.param(0)) {
+				if call, ok := ast.Unparen(y).(*ast.CallExpr); ok {
+					if cf := flow.CalleeFunc(f.Info, call); cf != nil && cf.Name() == "Buffered" && flow.ObjOf(f.Info, flow.Recv(call)) == types.Object(f.recvVar()) {
+						okk = true
+					}
+				}
+			}
+			return true
+		})
+		c.Check(okk, f.Name, "n bounded by Buffered() of both halves", f.Decl.Pos(), "n > mb.Buffered() is refused", "Peek no longer validates n against the bytes of both halves")
+	}
+	// (b) linkedlist.PeekWithBytes: the bound includes the prefix segments
+	f := getFn(c, "pkg/buffer/linkedlist", "Buffer.PeekWithBytes")
+	if f == nil {
+		return
+	}
+	maxB, bs := f.param(0), f.param(1)
+	// variables that depend on bs: assigned from expressions mentioning bs or a range variable over bs
+	dep := map[types.Object]bool{bs: true}
+	for changed := true; changed; {
+		changed = false
+		ast.Inspect(f.Decl.Body, func(n ast.Node) bool {
+			switch y := n.(type) {
+			case *ast.RangeStmt:
+				if o := flow.ObjOf(f.Info, y.X); o != nil && dep[o] {
+					for _, v := range []ast.Expr{y.Key, y.Value} {
+						if v != nil {
+							if vo := flow.ObjOf(f.Info, v); vo != nil && !dep[vo] {
+								dep[vo] = true
+								changed = true
+							}
+						}
+					}
+				}
+			case *ast.AssignStmt:
+				uses := false
+				for _, r := range y.Rhs {
+					ast.Inspect(r, func(z ast.Node) bool {
+						if id, ok := z.(*ast.Ident); ok && f.Info.Uses[id] != nil && dep[f.Info.Uses[id]] {
+							uses = true
+						}
+						return true
+					})
+				}
+				if uses {
+					for _, l := range y.Lhs {
+						if lo := flow.ObjOf(f.Info, l); lo != nil && !dep[lo] {
+							dep[lo] = true
+							changed = true
+						}
+					}
+				}
+			}
+			return true
+		})
+	}
+	found := false
+	ast.Inspect(f.Decl.Body, func(n ast.Node) bool {
+		is, ok := n.(*ast.IfStmt)
+		if !ok {
+			return true
+		}
+		// body returns io.ErrShortBuffer?
+		returnsShort := false
+		for _, st := range is.Body.List {
+			if r, ok := st.(*ast.ReturnStmt); ok && len(r.Results) == 2 {
+				if o := flow.ObjOf(f.Info, r.Results[1]); o != nil && o.Name() == "ErrShortBuffer" {
+					returnsShort = true
+				}
+			}
+		}
+		if !returnsShort {
+			return true
+		}
+		x, y, op, ok := flow.Cmp(is.Cond)
+		if !ok || op != token.GTR || flow.ObjOf(f.Info, x) != types.Object(maxB) {
+			return true
+		}
+		found = true
+		usesPrefix := false
+		ast.Inspect(y, func(z ast.Node) bool {
+			if id, ok := z.(*ast.Ident); ok && f.Info.Uses[id] != nil && dep[f.Info.Uses[id]] && f.Info.Uses[id] != types.Object(maxB) {
+				usesPrefix = true
+			}
+			return true
+		})
+		c.Check(usesPrefix, f.Name, "short-buffer bound includes the prefix segments", is.Pos(), "maxBytes is compared with list bytes + len of the given segments",
+			"PeekWithBytes refuses maxBytes > "+exprStr(y)+", which ignores the prefix segments it is asked to prepend: elastic.Buffer.Peek(n) fails with ErrShortBuffer whenever n exceeds the list part although n <= Buffered()")
+		return true
+	})
+	if !found {
+		c.Violate(f.Name, "short-buffer bound includes the prefix segments", f.Decl.Pos(), "PeekWithBytes no longer refuses a bound larger than what it can deliver")
 	}
 }
